@@ -893,9 +893,13 @@ def _registry_getter(model, res, c):
     from ..absint import Interp, Func, Const, Builtin, ClassV, Unmodelled
     getters = [(k2, c.cg.funcs[k2]) for k2 in sorted(c.cg.funcs) if c.cg.funcs[k2][1].name == 'get_for' and k2 in c.cg.cls_of]
     res.floor('registry getters', len(getters), 1)
-    near = ['OTHER', 'KNOWN.EXT', 'KNOWN.', '.KNOWN', 'X.KNOWN', 'known', 'Known', ' KNOWN', 'KNOWN ', 'KNOWN_', 'KNOW', 'KNOWNS', '']
+    near0 = ['OTHER', 'KNOWN.EXT', 'KNOWN.', '.KNOWN', 'X.KNOWN', 'known', 'Known', ' KNOWN', 'KNOWN ', 'KNOWN_', 'KNOW', 'KNOWNS', '']
     for key, (m, f) in getters:
         cm, cc = c.cg.cls_of[key]
+        # spellings built from the text constants of the getter's own module (a table of prefixes or suffixes the getter may strip)
+        texts = sorted(set(x.value for x in ast.walk(m.tree) if isinstance(x, ast.Constant) and isinstance(x.value, str)
+                           and 0 < len(x.value) <= 12 and '\n' not in x.value and x.value != 'KNOWN'))[:40]
+        near = list(near0) + [s_ for t_ in texts for s_ in ('KNOWN' + t_, t_ + 'KNOWN') if s_ not in near0]
         reg = model.lookup_method(cm, cc, 'register_for')
         if not reg:
             raise AnalysisError('dispatcher class has no register_for (anchor vanished)')
